@@ -108,3 +108,28 @@ Proof. repeat (constructor; [vm_compute; reflexivity|]). constructor. Qed.
 Print Assumptions C16_string_retain_panic_safe.
 Print Assumptions C16_source_string_retain.
 Print Assumptions C16_source_string_retain_frames.
+
+(* ---------- Vec::resize / extend_with when Clone panics at the (j+1)-th call (VecPanic.v): the
+   vector holds its old contents followed by exactly the j clones made so far, the value passed in
+   is dropped exactly once (by the unwinding) and is not reachable, nothing is in two places ---------- *)
+From BV Require Import VecModel VecFacts VecPanic.
+Theorem C16_resize_clone_panic : forall e v c new_len x next_id j v1,
+  repr e v c -> v_len v < new_len -> reserve e v (new_len - v_len v) false = Ret v1 ->
+  (j < nn (new_len - v_len v) - 1)%nat ->
+  let '(_, v', f) := resize_clone_panic e v new_len x next_id j in
+  let clones := map (fun i => next_id + N.of_nat i) (seq 0 j) in
+  repr e v' (c ++ clones) /\
+  f_drops f = [x] /\ f_clones f = N.of_nat j /\
+  Permutation (contents v' ++ f_drops f) (c ++ clones ++ [x]).
+Proof. exact resize_clone_panic_spec. Qed.
+
+Theorem C16_resize_clone_panic_no_double_drop : forall e v c new_len x next_id j v1,
+  repr e v c -> v_len v < new_len -> reserve e v (new_len - v_len v) false = Ret v1 ->
+  (j < nn (new_len - v_len v) - 1)%nat ->
+  NoDup (c ++ map (fun i => next_id + N.of_nat i) (seq 0 j) ++ [x]) ->
+  let '(_, v', f) := resize_clone_panic e v new_len x next_id j in
+  NoDup (contents v' ++ f_drops f) /\ ~ In x (contents v').
+Proof. exact resize_clone_panic_nodup. Qed.
+
+Print Assumptions C16_resize_clone_panic.
+Print Assumptions C16_resize_clone_panic_no_double_drop.
